@@ -18,7 +18,7 @@ func RegisterAll() {
 		SimComponents:  []string{"SimSched cooperative scheduler", "SimChip/SimPKI worlds", "per-operation random streams"},
 		RequiredProbes: []string{"lock_contended", "preempted_inside_call", "linearizable", "independent_instances_checked", "once_initialised_in_this_run"},
 		SampledOracles: map[string]bool{"data-race": true},
-		QuickBudget:    150, ThoroughBudget: 3600,
+		QuickBudget:    150, ThoroughBudget: 1200,
 	})
 	protoReal := []string{"gmrtd pace / bac / chipauth / activeauth, iso7816 (NfcSession, SecureMessaging), document constructors, password, mrz, cryptoutils"}
 	protoSim := []string{"SimChip protocol stack (own KDF, MACs, paddings, tokens, mapping, signatures)", "on-path adversary / impostor chip", "seeded terminal randomness via crypto/rand.Reader"}
@@ -31,7 +31,7 @@ func RegisterAll() {
 		Assumptions:    []string{"nonce length 16 octets for every suite", "shared secret = fixed-length x-coordinate (TR-03111 FE2OS)"},
 		RealComponents: protoReal, SimComponents: protoSim,
 		RequiredProbes: []string{"shared_secret_leading_zero", "public_coordinate_leading_zero", "unsupported_pace_infos_present"},
-		QuickBudget:    100, ThoroughBudget: 3600,
+		QuickBudget:    100, ThoroughBudget: 1200,
 	})
 	core.Register(&core.Check{
 		Property: "C05",
@@ -42,7 +42,7 @@ func RegisterAll() {
 		Assumptions:    []string{"reference chip derives K_seed from its own MRZ_information code (check digits included)"},
 		RealComponents: protoReal, SimComponents: protoSim,
 		RequiredProbes: []string{"ssc_about_to_wrap", "extended_document_number", "document_number_with_fillers"},
-		QuickBudget:    60, ThoroughBudget: 3600,
+		QuickBudget:    60, ThoroughBudget: 1200,
 	})
 	core.Register(&core.Check{
 		Property: "C06",
@@ -53,7 +53,7 @@ func RegisterAll() {
 		Assumptions:    []string{"by construction an impostor cannot know the shared secret"},
 		RealComponents: protoReal, SimComponents: protoSim,
 		RequiredProbes: []string{"shared_secret_leading_zero", "suite_inferred_set_kat"},
-		QuickBudget:    100, ThoroughBudget: 3600,
+		QuickBudget:    100, ThoroughBudget: 1200,
 	})
 	core.Register(&core.Check{
 		Property: "C07",
@@ -64,7 +64,7 @@ func RegisterAll() {
 		Assumptions:    []string{"for RSA moduli whose bit length k is not a multiple of 8 the genuine recoverable message is taken to be the floor(k/8)-octet string starting with 6A (the longest one below the modulus); acceptance is demanded for it", "an adversarial response may be accepted iff the reference verifier confirms it is a valid signature by the DG15 key over exactly the challenge sent (signature malleability never alarms)", "ISO/IEC 9796-2 min(s, n-s) signatures are not generated"},
 		RealComponents: protoReal, SimComponents: protoSim,
 		RequiredProbes: []string{"adversarial_but_valid_accepted"},
-		QuickBudget:    100, ThoroughBudget: 3600,
+		QuickBudget:    100, ThoroughBudget: 1200,
 	})
 	core.Register(&core.Check{
 		Property: "C02",
@@ -76,7 +76,7 @@ func RegisterAll() {
 		RealComponents: []string{"gmrtd reader, verifier, document.Session/DocumentEx.Summary, Document.Verify, passiveauth and all protocol packages"},
 		SimComponents:  []string{"hostile SimChip personalisations", "SimPKI (trusted and untrusted issuers)", "simulated store for the offline leg"},
 		RequiredProbes: []string{"sweep_combination"},
-		QuickBudget:    90, ThoroughBudget: 3600,
+		QuickBudget:    90, ThoroughBudget: 1200,
 	})
 	core.Register(&core.Check{
 		Property: "C09",
@@ -88,7 +88,7 @@ func RegisterAll() {
 		RealComponents: []string{"gmrtd passiveauth, cms (parsing, chain building, signature verification), document constructors, tlv"},
 		SimComponents:  []string{"SimPKI issuer with calendar (own DER/X.509/CMS writers and RSA/PSS/ECDSA signers)", "trust-store operator"},
 		RequiredProbes: []string{"indefinite_length_retry_path", "second_anchor_candidate_used"},
-		QuickBudget:    90, ThoroughBudget: 3600,
+		QuickBudget:    90, ThoroughBudget: 1200,
 	})
 	core.Register(&core.Check{
 		Property: "C01",
@@ -99,7 +99,7 @@ func RegisterAll() {
 		Assumptions:    []string{"by-construction verdicts: acceptance of a must-reject fault would need a hash collision or a signature forgery", "byte substitutions in signature values may be accepted iff the issuer's own verifier accepts the modified signature; substitutions in unauthenticated fields / length octets carry no demand", "arbitrary CMS blobs that are not mutations of genuine documents are not searched"},
 		RealComponents: []string{"gmrtd passiveauth, cms, document constructors, CreateCertPoolFromSignedData; verifier (offline path via the store engine)"},
 		SimComponents:  []string{"SimPKI byzantine issuer", "byzantine chip file store", "byzantine trust-store operator"},
-		QuickBudget:    100, ThoroughBudget: 3600,
+		QuickBudget:    100, ThoroughBudget: 1200,
 	})
 	core.Register(&core.Check{
 		Property: "C14",
@@ -111,7 +111,7 @@ func RegisterAll() {
 		RealComponents: []string{"gmrtd reader (live capture), document CBOR export/import, verifier, chipauth/pace/activeauth VerifyEvidence, passiveauth"},
 		SimComponents:  []string{"SimChip + SimPKI world for the live session", "simulated store with byzantine rewriter (own CBOR writer)"},
 		RequiredProbes: []string{"cam_joint_replacement_accepted_documented_exception", "shared_secret_leading_zero"},
-		QuickBudget:    90, ThoroughBudget: 3600,
+		QuickBudget:    90, ThoroughBudget: 1200,
 	})
 	core.Register(&core.Check{
 		Property: "C15",
@@ -123,7 +123,7 @@ func RegisterAll() {
 		RealComponents: []string{"gmrtd document CBOR export/import incl. every file constructor"},
 		SimComponents:  []string{"simulated store: bit-rot, torn writes, extension, byzantine envelope rewrite"},
 		Exhaustive:     func(tier string) bool { return false },
-		QuickBudget:    90, ThoroughBudget: 3600,
+		QuickBudget:    90, ThoroughBudget: 1200,
 	})
 	core.Register(&core.Check{
 		Property: "C11",
@@ -137,7 +137,7 @@ func RegisterAll() {
 		RequiredProbes: []string{"read_completed_despite_fault", "clear_file_modified"},
 		CrashOwner:     true,
 		Exhaustive:     func(tier string) bool { return false },
-		QuickBudget:    120, ThoroughBudget: 3600,
+		QuickBudget:    120, ThoroughBudget: 1200,
 	})
 	core.Register(&core.Check{
 		Property: "C08",
@@ -149,7 +149,7 @@ func RegisterAll() {
 		RealComponents: []string{"gmrtd reader, pace, bac, chipauth, activeauth, iso7816, passiveauth, cms, document, tlv, mrz, password, cryptoutils (all unmodified)"},
 		SimComponents:  []string{"SimChip (full protocol stack, file system)", "SimPKI issuer (own DER/X.509/CMS builders and signers)", "fault-free link", "seeded terminal randomness via crypto/rand.Reader"},
 		RequiredProbes: []string{"fallback_ladder_used", "shared_secret_leading_zero"},
-		QuickBudget:    80, ThoroughBudget: 3600,
+		QuickBudget:    80, ThoroughBudget: 1200,
 	})
 	core.Register(&core.Check{
 		Property: "C12",
@@ -162,7 +162,7 @@ func RegisterAll() {
 		SimComponents:  []string{"byzantine SimChip file contents", "adversarial link", "rotten / byzantine store", "byzantine issuer"},
 		RequiredProbes: []string{"rejected"},
 		CrashOwner:     true,
-		QuickBudget:    150, ThoroughBudget: 3600,
+		QuickBudget:    150, ThoroughBudget: 1200,
 	})
 	core.Register(&core.Check{
 		Property: "C03",
@@ -175,7 +175,7 @@ func RegisterAll() {
 		SimComponents:  []string{"scripted card with reference chip-side secure messaging", "active on-path adversary"},
 		RequiredProbes: []string{"rejected"},
 		Exhaustive:     nil,
-		QuickBudget:    60, ThoroughBudget: 3600,
+		QuickBudget:    60, ThoroughBudget: 1200,
 	})
 	core.Register(&core.Check{
 		Property: "C10",
@@ -187,7 +187,7 @@ func RegisterAll() {
 		RealComponents: realTerminal,
 		SimComponents:  []string{"scripted card with reference chip-side secure messaging and strict ISO 7816-4 command parser"},
 		RequiredProbes: []string{"ssc_wrap", "transport_reject", "authenticated_after_transport_reject", "protected_error_status", "odd_ins"},
-		QuickBudget:    60, ThoroughBudget: 3600,
+		QuickBudget:    60, ThoroughBudget: 1200,
 	})
 	core.Register(&core.Check{
 		Property: "C13",
@@ -199,6 +199,6 @@ func RegisterAll() {
 		RealComponents: realTerminal,
 		SimComponents:  []string{"SimChip file system, READ BINARY/SELECT, chip-side secure messaging", "link (fault-free in this engine; the chip's response-splitting policies are the I/O faults)"},
 		RequiredProbes: []string{"multi_chunk_ok", "fallback_ladder_used", "fallback_ladder_succeeded", "naked_response_branch"},
-		QuickBudget:    60, ThoroughBudget: 3600,
+		QuickBudget:    60, ThoroughBudget: 1200,
 	})
 }
